@@ -47,7 +47,10 @@ class Dispatch:
         self.fcommon = {self.sf.var(v)[1] for v in common} - notported
         consts = {'$emass': self.emass}
         self.evf = sccp.Evaluator('f', consts)
-        self.evc = sccp.Evaluator('c', consts)
+        from .minieval import Mini
+        nsw = Mini(self.prog.fn('bxdecay0::name_starts_with'))
+        # the port's prefix helper is folded from its own body (not assumed to be a prefix test)
+        self.evc = sccp.Evaluator('c', consts, helpers={'name_starts_with': nsw.call})
 
     def residual(self, side, env):
         g = self.gf0 if side == 'f' else self.gc0
